@@ -447,3 +447,7 @@ func vh_C09_L14_abort_always_carries_its_cause() {
 	}
 	vcover("end")
 }
+
+// C09.L15: closing a stream never takes the association lock while holding the stream's own
+// (the read loop's exit path takes them the other way round; = C14.L5 under the lock wrappers).
+func vh_C09_L15_stream_close_keeps_the_lock_order() { vh_C14_L5_in_progress_keeps_request() }
